@@ -208,6 +208,37 @@ def order_violation(acked, delivered):
     return None
 
 
+def shrink(binp, scratch, lines, prop, tag, budget=150):
+    """Drop schedule lines while the implementation still violates `prop` (the set-up lines stay)."""
+    def bad(ls):
+        outs, status = run_impl(binp, scratch, ls, tag)
+        if status != "ok":
+            return False
+        c23, c22, _, _ = oracle(ls, outs)
+        return bool(c23 if prop == "C23" else c22)
+    keep = sum(1 for l in lines if l.startswith(("init", "topic")))
+    cur = list(lines)
+    # first try to cut the tail (the final reading phase is often irrelevant for C23)
+    for cut in (len(cur) // 2, len(cur) * 3 // 4):
+        if budget > 0 and cut > keep:
+            budget -= 1
+            if bad(cur[:cut]):
+                cur = cur[:cut]
+    changed = True
+    while changed and budget > 0:
+        changed = False
+        i = keep
+        while i < len(cur) and budget > 0:
+            cand = cur[:i] + cur[i + 1:]
+            budget -= 1
+            if bad(cand):
+                cur = cand
+                changed = True
+            else:
+                i += 1
+    return cur
+
+
 # ---------------------------------------------------------------------------------------------- the check
 
 KNOWN_FOR = {"C23": ["staleLeaseWrite"], "C22": ["sealedCountStale", "readerLagsMetadata", "staleLeaseWrite"]}
@@ -310,7 +341,12 @@ def plane_check(ctx, prop):
                     body += ["# line %d: %s" % (kk + 1, w) for kk, w in vio[:5]]
                     if dis:
                         body += ["# model and implementation differ on this schedule: line %d implementation=%r model=%r" % (dis[0] + 1, dis[1], dis[2])]
-                    body += lines + ["# outputs:"] + ["#   %s" % o for o in outs]
+                    small = shrink(binp, ctx.scratch, lines, prop, "shrink%d" % idx) if status == "ok" else lines
+                    souts, _ = run_impl(binp, ctx.scratch, small, "shrunk%d" % idx)
+                    sc23, sc22, _, _ = oracle(small, souts)
+                    body += ["# shrunk schedule (%d of %d lines): line %d: %s" % (len(small), len(lines), kk + 1, w) for kk, w in (sc23 if prop == "C23" else sc22)[:3]]
+                    body += small + ["# outputs of the shrunk schedule:"] + ["#   %s" % o for o in souts]
+                    body += ["# original schedule:"] + ["#   %s" % l for l in lines]
                     ctx.violations.append((write_replay(ctx, "schedule", "\n".join(body) + "\n"), ""))
             elif dis is not None:
                 ndis += 1
